@@ -87,6 +87,8 @@ def op_cases(widths, ops='w~&|^n+-*<>=xcsm', mul_max=16, dests=('out',)):
                 for idx in sorted(idxs):
                     if idx:
                         out.append({'fam': 'OP', 'op': 's', 'wa': wa, 'idx': list(idx), 'wd': len(idx)})
+                        if len(idx) > 1:    # truncating destination
+                            out.append({'fam': 'OP', 'op': 's', 'wa': wa, 'idx': list(idx), 'wd': len(idx) - 1})
                 continue
             elif op == 'm':
                 if wa > 8:
